@@ -777,6 +777,7 @@ fn type_class(dt: &DataType) -> String {
         DataType::Struct(fs) => format!("Struct<{}>", fs.iter().map(|f| type_class(f.data_type())).collect::<Vec<_>>().join(",")),
         DataType::Map(e, _) => format!("Map<{}>", type_class(e.data_type())),
         DataType::RunEndEncoded(r, v) => format!("REE<{},{}>", r.data_type(), type_class(v.data_type())),
+        DataType::FixedSizeBinary(_) => "FixedSizeBinary".into(),
         o => format!("{o}"),
     }
 }
